@@ -17,7 +17,6 @@ import (
 	"github.com/pion/interceptor"
 	"github.com/pion/interceptor/pkg/nack"
 	"github.com/pion/interceptor/pkg/verifhooks"
-	"github.com/pion/logging"
 	"github.com/pion/rtcp"
 	"github.com/pion/rtp"
 )
@@ -267,6 +266,34 @@ func c04genHdr(r *Rng, ssrc, seq int) c04hdr {
 			ids := []int{1, 200}
 			for i := 0; i < r.Range(0, 2); i++ {
 				h.exts = append(h.exts, c04ext{ids[i], c04bytes(r, r.Pick(0, 1, 20))})
+			}
+		}
+	}
+	return h
+}
+
+// c04genHdrShape: a header of one of the four shapes 0 = neither CSRCs nor extensions, 1 = CSRCs only, 2 = extensions
+// only, 3 = both (one to three CSRCs; one or two extension elements of either profile).
+func c04genHdrShape(r *Rng, ssrc, seq, shape int) c04hdr {
+	h := c04hdr{ssrc: ssrc, pt: r.Pick(96, 96, 111, 0, 127), seq: seq, ts: uint32(r.U64()), m: r.Chance(1, 4)}
+	if shape&1 != 0 {
+		for i := r.Range(1, 3); i > 0; i-- {
+			h.csrc = append(h.csrc, uint32(r.U64()))
+		}
+	}
+	if shape&2 != 0 {
+		h.x = true
+		if r.Bool() {
+			h.prof = 0xBEDE
+			ids := []int{1, 5, 14}
+			for i, n := 0, r.Range(1, 2); i < n; i++ {
+				h.exts = append(h.exts, c04ext{ids[i], c04bytes(r, r.Range(1, 4))})
+			}
+		} else {
+			h.prof = 0x1000
+			ids := []int{1, 200}
+			for i, n := 0, r.Range(1, 2); i < n; i++ {
+				h.exts = append(h.exts, c04ext{ids[i], c04bytes(r, r.Pick(1, 2, 20))})
 			}
 		}
 	}
@@ -714,6 +741,8 @@ type c04harn struct {
 	late          int // resend writes that reached the bottom writer after that Close had returned
 	// write-fault injection: the next failRtx retransmission writes / failOut original writes fail
 	failRtx, failOut int
+	// the bottom writer also overwrites the payload bytes it was handed (op `scribblepl`)
+	scribblePayload bool
 }
 
 var errC04Injected = errors.New("injected write failure")
@@ -754,10 +783,48 @@ func (b *c04bottom) Write(hdr *rtp.Header, payload []byte, _ interceptor.Attribu
 	}
 	h.lines = append(h.lines, fmt.Sprintf("%s w=%d %s", tag, b.w, c04showPkt(hdr, payload)))
 	h.mu.Unlock()
+	// The writer below owns what it is handed for the duration of the call and may edit it in place meanwhile (the
+	// TWCC header-extension interceptor stamps an extension, FlexFEC and SRTP work on the header): now that the packet
+	// is recorded, overwrite everything reachable from the header.  What the responder keeps for the next
+	// retransmission of the same packet must not be reachable from here.
+	c04bottomScribble(hdr, payload, h.scribblePayload)
 	if fail {
 		return 0, errC04Injected
 	}
 	return len(payload), nil
+}
+
+// c04bottomScribble is what a writer below the responder may do to the header it was handed: every scalar field, every
+// CSRC entry, every extension element (id and payload slice) and every byte of every extension payload is overwritten
+// in place.  With `pl` the payload bytes are overwritten as well (`scribblepl` op; see the note at the generator).
+func c04bottomScribble(h *rtp.Header, payload []byte, pl bool) {
+	x := h.Extension
+	h.Extension = true // GetExtensionIDs / GetExtension look at the elements only when the flag is set
+	for _, id := range h.GetExtensionIDs() {
+		p := h.GetExtension(id)
+		for i := range p {
+			p[i] ^= 0xA5
+		}
+	}
+	h.Extension = x
+	for i := range h.Extensions {
+		h.Extensions[i] = rtp.Extension{}
+	}
+	for i := range h.CSRC {
+		h.CSRC[i] = 0xDEADBEEF
+	}
+	h.Version, h.Padding, h.Extension, h.Marker = 3, !h.Padding, !h.Extension, !h.Marker
+	h.PayloadType ^= 0x7F
+	h.SequenceNumber ^= 0xFFFF
+	h.Timestamp ^= 0xFFFFFFFF
+	h.SSRC ^= 0xFFFFFFFF
+	h.ExtensionProfile ^= 0xFFFF
+	h.PaddingSize ^= 0xFF
+	if pl {
+		for i := range payload {
+			payload[i] ^= 0x5A
+		}
+	}
 }
 
 func (h *c04harn) flush(o *Out) {
@@ -769,18 +836,9 @@ func (h *c04harn) flush(o *Out) {
 	h.mu.Unlock()
 }
 
-// c04quietLogs: a logger factory that prints nothing (a third option for the application's option list).
-func c04quietLogs() logging.LoggerFactory {
-	lf := logging.NewDefaultLoggerFactory()
-	lf.DefaultLogLevel = logging.LogLevelDisabled
-	return lf
-}
-
 func c04runResponder(t *testing.T, ops []string, o *Out) {
-	app, ops := appOf(ops)
-	// what the application bound, per SSRC: its description of the stream and the object it handed to Bind
-	descs, lives := map[uint32]*interceptor.StreamInfo{}, map[uint32]*interceptor.StreamInfo{}
 	h := &c04harn{resumeCh: make(chan struct{})}
+	h.scribblePayload = o != nil && o.Amb != nil && o.Amb.Opts["scribblepl"] == "1"
 	var icpt interceptor.Interceptor
 	var reader interceptor.RTCPReader
 	var writers []interceptor.RTPWriter
@@ -811,8 +869,7 @@ func c04runResponder(t *testing.T, ops []string, o *Out) {
 				continue
 			}
 			pf := verifhooks.NewPacketFactoryCopySeq(rtp.NewFixedSequencer(uint16(r0)))
-			f, _ := nack.NewResponderInterceptor(appShuffle(app, []nack.ResponderOption{
-				nack.ResponderSize(uint16(n)), nack.VerifResponderPacketFactoryCopy(pf), nack.WithResponderLoggerFactory(c04quietLogs())})...)
+			f, _ := nack.NewResponderInterceptor(nack.ResponderSize(uint16(n)), nack.VerifResponderPacketFactoryCopy(pf))
 			i, err := f.NewInterceptor("")
 			if icpt != nil {
 				resume()
@@ -856,10 +913,8 @@ func c04runResponder(t *testing.T, ops []string, o *Out) {
 				o.P("bad-op")
 				continue
 			}
-			desc := &interceptor.StreamInfo{SSRC: uint32(ssrc), SSRCRetransmission: uint32(rs), PayloadTypeRetransmission: uint8(rp),
+			info := &interceptor.StreamInfo{SSRC: uint32(ssrc), SSRCRetransmission: uint32(rs), PayloadTypeRetransmission: uint8(rp),
 				RTCPFeedback: fbl}
-			info := app.BindInfo(desc)
-			descs[desc.SSRC], lives[desc.SSRC] = desc, info
 			before := *info
 			before.RTCPFeedback = append([]interceptor.RTCPFeedback(nil), fbl...)
 			writers = append(writers, icpt.BindLocalStream(info, &c04bottom{h, len(writers)}))
@@ -875,7 +930,6 @@ func c04runResponder(t *testing.T, ops []string, o *Out) {
 					}
 				}
 			}
-			app.AfterBind(info) // Bind has returned: the object is the application's again
 		case name == "write" && icpt != nil:
 			w, ok := c04num(m, "w", 1<<31)
 			hdr := c04parseHdr(m)
@@ -946,13 +1000,7 @@ func c04runResponder(t *testing.T, ops []string, o *Out) {
 				o.P("bad-op")
 				continue
 			}
-			// the stream is named by its SSRC: a StreamInfo rebuilt from it alone, or (app op) any other value the
-			// application may hold for that SSRC by now
-			ui := &interceptor.StreamInfo{SSRC: uint32(ssrc)}
-			if desc := descs[ui.SSRC]; app != nil && desc != nil {
-				ui = app.UnbindInfo(desc, lives[ui.SSRC])
-			}
-			o.InfoGuard("UnbindLocalStream", ui, func() { icpt.UnbindLocalStream(ui) })
+			icpt.UnbindLocalStream(&interceptor.StreamInfo{SSRC: uint32(ssrc)})
 		case op == "close" && icpt != nil:
 			h.mu.Lock()
 			waiting, held := h.closeWaiting, h.hold && h.blocked
@@ -1025,7 +1073,7 @@ func init() {
 		},
 		Gen: func(r *Rng, tier string, idx int) Case {
 			classes := []string{"inorder", "gaps", "late", "wrap", "dupreq", "neversent", "outside", "otherssrc",
-				"rtx", "padding", "bigpayload", "unbind", "close", "rebind", "inflight", "bigsize", "mixed", "badsize", "dup", "closewait", "writefail", "writefail"}
+				"rtx", "padding", "bigpayload", "unbind", "close", "rebind", "inflight", "bigsize", "mixed", "badsize", "dup", "closewait", "writefail", "writefail", "rtxtwice"}
 			cl := classes[idx%len(classes)]
 			if cl == "badsize" {
 				return Case{Class: cl, Ops: []string{
@@ -1065,7 +1113,7 @@ func init() {
 					g.cl = cl
 				case "wrap":
 					g.cur = (65536 - r.Range(1, 2*min(size, 40)+3)) & 0xFFFF
-				case "neversent", "outside", "dupreq", "rtx", "padding", "bigpayload", "inflight", "closewait", "writefail":
+				case "neversent", "outside", "dupreq", "rtx", "padding", "bigpayload", "inflight", "closewait", "writefail", "rtxtwice":
 					g.cl = []string{"inorder", "mixed"}[r.Intn(2)]
 				}
 				streams = append(streams, &stream{ssrc, g, fb})
@@ -1087,6 +1135,9 @@ func init() {
 					seq = st.g.next(r)
 				}
 				h := c04genHdr(r, ssrc, seq)
+				if cl == "rtxtwice" {
+					h = c04genHdrShape(r, ssrc, seq, r.Intn(4))
+				}
 				pl := c04genPayload(r, &h, c04pickForm(r, cl), c04pickLen(r, cl == "bigpayload" && r.Chance(2, 3)))
 				ops = append(ops, fmt.Sprintf("write w=%d %s pl=%s", w, h.fields(), pl))
 			}
@@ -1137,8 +1188,35 @@ func init() {
 					}
 				}
 			}
+			if cl == "rtxtwice" {
+				// "A retransmission equals the packet as sent" holds for EVERY retransmission of a packet: the same
+				// sequence number is asked for two or three times (in separate NACKs and twice within one), with headers
+				// of all four shapes (CSRCs / extensions / both / neither), while the writer below edits what it is handed.
+				for round := r.Range(2, 4); round > 0; round-- {
+					w := r.Intn(len(streams))
+					st := streams[w]
+					for i := r.Range(1, min(size, 4)); i > 0; i-- {
+						write(w)
+					}
+					var parts []string
+					for k := r.Range(1, 3); k > 0; k-- {
+						pid := st.g.hist[len(st.g.hist)-1-r.Intn(min(len(st.g.hist), size))]
+						parts = append(parts, fmt.Sprintf("%d:%d", pid, r.Pick(0, 0, 0, 1, 3)))
+						if r.Chance(1, 3) {
+							parts = append(parts, fmt.Sprintf("%d:0", pid))
+						}
+					}
+					pairs := strings.Join(parts, ",")
+					for rep := r.Range(2, 3); rep > 0; rep-- {
+						ops = append(ops, fmt.Sprintf("nack ssrc=%d pairs=%s", st.ssrc, pairs))
+						if r.Chance(1, 4) {
+							write(r.Intn(len(streams)))
+						}
+					}
+				}
+			}
 			n := r.Range(8, 45)
-			if cl == "writefail" {
+			if cl == "writefail" || cl == "rtxtwice" {
 				n = r.Range(0, 10)
 			}
 			holding := false
@@ -1222,16 +1300,4 @@ func init() {
 			synctest.Test(t, func(t *testing.T) { c04runResponder(t, ops, o) })
 		},
 	})
-	// the application of the case (streaminfo_test.go): the StreamInfo it hands to Unbind, what it does with its
-	// StreamInfo after Bind, the order of its option list
-	c := comps["responder"]
-	gen := c.Gen
-	c.Gen = func(r *Rng, tier string, idx int) Case {
-		ar := NewRng(r.s ^ 0xA9904)
-		cs := gen(r, tier, idx)
-		if cs.Class != "badsize" && ar.Chance(3, 4) {
-			cs.Ops = withApp(cs.Ops, genApp(ar, 3, 2, 0, 3))
-		}
-		return cs
-	}
 }
